@@ -602,6 +602,13 @@ def m_slice_iter(sim, st, c):
     return Opaque("SliceIter", (base, a, b, c["fn"]["name"] == "iter_mut"))
 
 
+@pattern(r"^(core|std)::slice::iter::<impl std::iter::IntoIterator for &'a (mut )?\[T\]>::into_iter$")
+def m_slice_ref_into_iter(sim, st, c):
+    r = sim.resolve(st, c["args"][0])
+    base, a, b = slice_bounds(sim, st, r)
+    return Opaque("SliceIter", (base, a, b, isinstance(r, Ref) and bool(r.mut)))
+
+
 def const_usize(sim, st, v, what):
     v = sim.resolve(st, v)
     if not (isinstance(v, Const) and isinstance(v.val, int)):
@@ -833,6 +840,28 @@ def m_lock(sim, st, c):
     st.notes.add("assume-locks-not-poisoned")
     g = Opaque("LockGuard", (kind, p))
     return sim.mk_enum(c["ret_ty"], "Ok", [g])
+
+
+@pattern(r"^std::sync::(RwLock|Mutex)::<T>::(try_read|try_write|try_lock)$")
+def m_try_lock(sim, st, c):
+    """Non-blocking acquisition: whether the lock is free is the environment's choice (other threads), so both outcomes
+    are explored: Ok(guard) and Err(WouldBlock)."""
+    p = sim.deref_value(st, c["args"][0])
+    label = sim.obj_label(st, p)
+    kind = c["fn"]["name"]
+    n = len([1 for e in st.effects if e[0] in ("lock", "trylock-failed") and e[2] == label])
+    key = ("trylock", label, n)
+    got = st.consts.get(key)
+    if got is None:
+        raise S.Fork([(("trylock", label, "acquired"), (lambda s_, k=key: s_.consts.__setitem__(k, "ok"))),
+                      (("trylock", label, "contended"), (lambda s_, k=key: s_.consts.__setitem__(k, "busy")))])
+    if got == "ok":
+        st.effects.append(("lock", kind[4:], label))
+        st.notes.add("assume-locks-not-poisoned")
+        return sim.mk_enum(c["ret_ty"], "Ok", [Opaque("LockGuard", (kind[4:], p))])
+    st.effects.append(("trylock-failed", kind[4:], label))
+    ety = c["ret_ty"]["args"][1]
+    return sim.mk_enum(c["ret_ty"], "Err", [Sym("would_block(%s)" % label, ety)])
 
 
 @pattern(r"^<std::sync::(MutexGuard|RwLockReadGuard|RwLockWriteGuard)<'_, T> as std::ops::Deref(Mut)?>::deref(_mut)?$")
@@ -1115,10 +1144,28 @@ def ord_key(sim, st, v, ty):
     raise S.Unsupported("max/min on " + ty_str(ty))
 
 
+def opt_max_min(sim, st, c, want_max):
+    """Ord on Option<T>: None < Some(_), Some(a) vs Some(b) by the payload."""
+    ty = c["ret_ty"]
+    a, b = sim.force_variant(st, c["args"][0]), sim.force_variant(st, c["args"][1])
+    if a.vname == "None" or b.vname == "None":
+        if a.vname == b.vname:
+            return c["args"][1] if want_max else c["args"][0]
+        some_first = a.vname == "Some"
+        return (c["args"][0] if some_first else c["args"][1]) if want_max else (c["args"][1] if some_first else c["args"][0])
+    ity = ty["args"][0]
+    gt = sim.int_sign(st, int_sub(ord_key(sim, st, a.fields[0], ity), ord_key(sim, st, b.fields[0], ity)), {">"})
+    if want_max:
+        return c["args"][0] if gt else c["args"][1]
+    return c["args"][1] if gt else c["args"][0]
+
+
 @model("std::cmp::max", "std::cmp::Ord::max")
 def m_max(sim, st, c):
     a, b = c["args"][0], c["args"][1]
     ty = c["ret_ty"]
+    if is_adt(ty, "Option"):
+        return opt_max_min(sim, st, c, True)
     if sim.int_sign(st, int_sub(ord_key(sim, st, a, ty), ord_key(sim, st, b, ty)), {">"}):
         return a
     return b
@@ -1128,6 +1175,8 @@ def m_max(sim, st, c):
 def m_min(sim, st, c):
     a, b = c["args"][0], c["args"][1]
     ty = c["ret_ty"]
+    if is_adt(ty, "Option"):
+        return opt_max_min(sim, st, c, False)
     if sim.int_sign(st, int_sub(ord_key(sim, st, a, ty), ord_key(sim, st, b, ty)), {">"}):
         return b
     return a
